@@ -42,7 +42,7 @@ class Elem:
 
 OPERATOR_METHODS = ('__eq__', '__ne__', '__gt__', '__lt__', '__ge__', '__le__', '__add__', '__sub__', '__mul__', '__truediv__', '__floordiv__', '__mod__', 'is_', 'is_not',
                     'isnot', 'like', 'notlike', 'not_like', 'ilike', 'in_', 'notin_', 'not_in', 'concat', '__and__', '__or__', '__invert__', '__neg__', 'between',
-                    'desc', 'asc', 'nullsfirst', 'nullslast', 'nulls_first', 'nulls_last')
+                    'desc', 'asc', 'nullsfirst', 'nullslast', 'nulls_first', 'nulls_last', 'exists', 'scalar_subquery', 'subquery')
 for _nm in OPERATOR_METHODS:
     setattr(Elem, _nm, (lambda n_: (lambda self, *o: self._op(n_, *o)))(_nm))
 
